@@ -1,4 +1,5 @@
 import Failsafe.Exec
+import Failsafe.Lemmas.ExecBodiesLink
 /-!
 # C02 — retry: bounded attempts, stops at first success or abort, correct final result
 
@@ -309,5 +310,66 @@ example : Budget 0 2 { w := {}, script := [] } := budget_fresh 0 2 (by decide) {
 /-- non-vacuity of `retry_invocations_bounded`: a terminating retry loop around a layer that invokes once per call -/
 example : (retryLoop 0 1 false [] [] (fun r => some (⟨0, none, true, true, true⟩, { r with inv := r.inv + 1 })) 1
     { w := {}, script := [] }).isSome = true := by decide
+
+/-! ## The retry decision, on the regenerated body of `retrypolicy.executor.OnFailure`
+
+`ExecBodies.retryOnFailure` is the reference definition the body regenerated from the source on every run is proved equal to
+(`Tie/XRetry.lean`); `retryOnFailure_link` shows that the composition model's `Exec.retryOnFailure` computes it. -/
+section kernel
+open Failsafe.ExecBodies
+
+/-- **the budget**: the executor's `retriesExceeded` is set exactly when this failure is beyond `maxRetries` (never for -1) or was
+handled after the max duration had elapsed; each failure counts once -/
+theorem kernel_exceeded_iff (c : RCfg) (s : RSt) (el : Int) (ab : Bool) (res : PR) :
+    (ExecBodies.retryOnFailure c s el ab res).2.exceeded =
+        ((c.maxRetries != -1 && decide (s.failed + 1 > c.maxRetries)) || (c.maxDuration != 0 && decide (el > c.maxDuration))) ∧
+      (ExecBodies.retryOnFailure c s el ab res).2.failed = s.failed + 1 := by
+  unfold ExecBodies.retryOnFailure retryExceeded
+  simp only []
+  constructor <;> (split <;> (try split) <;> (try split) <;> simp [rOnAbort, rOnRetriesExceeded, rBaseOnFailure, RSt.emit])
+
+/-- **the final result**: a budget that is exceeded yields `ExceededError` wrapping the last outcome, or the last outcome itself with
+`ReturnLastFailure`; otherwise the outcome is returned, final (`Done`) exactly when it aborts or no retry is allowed -/
+theorem kernel_result (c : RCfg) (s : RSt) (el : Int) (ab : Bool) (res : PR) :
+    let exc := retryExceeded c (s.failed + 1) el
+    (ExecBodies.retryOnFailure c s el ab res).1 =
+      if exc && !c.returnLastFailure then exceededResult res
+      else res.withDone (ab || !(!ab && !exc && allowsRetries c)) false := by
+  unfold ExecBodies.retryOnFailure
+  simp only [rBaseOnFailure, RSt.emit]
+  by_cases h : (retryExceeded c (s.failed + 1) el && !c.returnLastFailure) = true <;> simp [h]
+
+/-- never a success, whatever the configuration: a handled failure leaves the retry policy as a failure -/
+theorem kernel_result_not_success (c : RCfg) (s : RSt) (el : Int) (ab : Bool) (res : PR) :
+    (ExecBodies.retryOnFailure c s el ab res).1.success = false ∧ (ExecBodies.retryOnFailure c s el ab res).1.successAll = false := by
+  have h := kernel_result c s el ab res
+  simp only [] at h
+  rw [h]
+  split <;> simp [exceededResult, failureResult, PR.withDone]
+
+/-- **listeners**: `OnFailure` first, always; then `OnAbort` iff the outcome aborts; then `OnRetriesExceeded` iff the budget is exceeded
+and the outcome does not abort — never both for one failure, each at most once -/
+theorem kernel_listeners (c : RCfg) (s : RSt) (el : Int) (ab : Bool) (res : PR) (h1 : c.onAbort = some ()) (h2 : c.onRetriesExceeded = some ()) :
+    (ExecBodies.retryOnFailure c s el ab res).2.log =
+      s.log ++ ["onFailure"] ++ (if ab then ["onAbort"] else []) ++
+        (if retryExceeded c (s.failed + 1) el && !ab then ["onRetriesExceeded"] else []) := by
+  unfold ExecBodies.retryOnFailure
+  simp only [rBaseOnFailure, rOnAbort, rOnRetriesExceeded, RSt.emit, h1, h2, Option.isSome_some, Bool.and_true]
+  cases ab <;> cases retryExceeded c (s.failed + 1) el <;> cases c.returnLastFailure <;> simp
+
+/-- **the composition model's retry decision is the code's** -/
+theorem model_retry_decision_is_the_codes (pos : Nat) (m : Int) (rl : Bool) (abort : List Cond) (res1 : PR) (r : Run)
+    (md elapsed : Int) (hd : (md != 0 && decide (elapsed > md)) = durExceeded pos r) :
+    let k := ExecBodies.retryOnFailure ⟨m, md, rl, some (), some ()⟩ (Failsafe.Lemmas.ExecBodiesLink.retrySt r pos) elapsed (isAbortable abort res1.outcome) res1
+    let x := Exec.retryOnFailure pos m rl abort res1 r
+    x.1 = k.1 ∧ (getFailed x.2 pos : Int) = k.2.failed ∧
+      x.2.exceeded = (if k.2.exceeded then pos :: r.exceeded else r.exceeded) ∧
+      x.2.log.map (·.name) = r.log.map (·.name) ++ k.2.log.map ("rp." ++ ·) :=
+  Failsafe.Lemmas.ExecBodiesLink.retryOnFailure_link pos m rl abort res1 r md elapsed hd
+
+example : (ExecBodies.retryOnFailure ⟨2, 0, false, some (), some ()⟩ ⟨2, false, []⟩ 0 false (fnResult 7 (some Err.full))).1 =
+    failureResult (.exceededE 7 Err.full) := by decide
+
+end kernel
 
 end Failsafe.Props.C02
